@@ -84,7 +84,7 @@ def source_lists(repo=None):
 def _hash_inputs(repo=None):
     sd = src_dir(repo)
     h = hashlib.sha256()
-    h.update(("flags:" + " ".join(CFLAGS) + WRAPFLAG).encode())
+    h.update(("recipe:2 flags:" + " ".join(CFLAGS) + WRAPFLAG).encode())
     files = []
     for root, dirs, names in os.walk(sd):
         rel = os.path.relpath(root, sd)
@@ -218,14 +218,19 @@ def build(repo=None, verbose=False):
                 jobs.append((hs, os.path.join(bd, "stosim.%s.o" % variant), extra, [sd]))
         _compile_many(jobs)
 
-        def link(out, objs, libs, wrap=True):
-            cmd = ["gcc", "-g", "-o", out] + objs + libs + ([WRAPFLAG] if wrap else []) + ["-lm"]
+        def link(out, objs, libs, wrap=True, extra=()):
+            cmd = ["gcc", "-g", "-o", out] + list(extra) + objs + libs + ([WRAPFLAG] if wrap else []) + ["-lm"]
             rc, o = _run(cmd)
             if rc != 0:
                 raise RuntimeError("link failed for %s:\n%s" % (out, o[-4000:]))
 
         comp_objs = [os.path.join(bd, "comp", c[:-2] + ".o") for c in comp]
         link(os.path.join(bd, "aldor.sim"), comp_objs + [os.path.join(bd, "aldorsim.o")], [])
+        # the same objects linked at another address (position dependent, low text segment): the
+        # address of every function, string literal and static table differs from the first image
+        os.makedirs(os.path.join(bd, "imgb"), exist_ok=True)
+        link(os.path.join(bd, "imgb", "aldor.sim"), comp_objs + [os.path.join(bd, "aldorsim.o")], [],
+             extra=["-no-pie", "-Wl,-Ttext-segment=0x10000000"])
         # archives
         gen_objs = [os.path.join(bd, "comp", c[:-2] + ".o") for c in gen]
         rc, o = _run(["ar", "crs", os.path.join(bd, "libgen.sim.a")] + gen_objs)
@@ -246,6 +251,7 @@ def build(repo=None, verbose=False):
         info = {
             "dir": bd, "key": key, "repo": repo, "src": sd,
             "aldor": os.path.join(bd, "aldor.sim"),
+            "aldor_b": os.path.join(bd, "imgb", "aldor.sim"),
             "simrun": os.path.join(bd, "simrun"),
             "simobj": os.path.join(bd, "aldorsim.o"),
             "libfoam": os.path.join(bd, "libfoam.sim.a"),
